@@ -27,6 +27,24 @@ Decided:
                      (value, "0") as the default; Deserialize = try_from(String::deserialize(d)?) in normal form; Display
                      writes the fields in order separated by '.' (format template, or the rendered-text normal form
                      C09_helpers.text_pieces of to_string / join spellings)
+  R3'/R5'/R4'/R6' (function deepen) the same string travels through every entry point unchanged and nothing else decides:
+     deserialize-input       what Deserialize hands to parse / try_from is the success payload of String::deserialize itself
+     reject-only-unmatched   every Err of from_str lies behind a failed regex match (accepted <=> match, both directions)
+     derived-constructors    no derived impl other than Clone builds the newtype (derive(Default) yields an unvalidated value)
+     field-private           the newtype's string field is not public (no construction / mutation from outside)
+     proc-macro/input-fields the Parse impl of the macro input stores its first / second string literal as written
+     new_unchecked-stored    new_unchecked stores its argument unchanged
+     display-plain           Display uses plain `{}` placeholders formatted with Display (no {:?}, width, precision)
+     macro-args              (token facts) the literal macro hands its parameter itself to verify_regex! and new_unchecked
+     proc-macro/operands     verify_regex compiles the content of the `regex` literal and matches the content of the
+                             `value` literal of its input, unmodified
+     split-input             the string that is split is try_from's argument itself
+     component-input         the string handed to the integer parse is the split component / split_once half itself
+     component-value         every Option<u64> the validator yields carries the success payload of that parse
+     single-parser           every other function from a string to the type hands the string to try_from
+     whole-input-tests       no branch of try_from tests the whole string other than through its components
+     parse-gates             conditions about the parsed string on the way to the parse are only the spec's
+                             (digits / sign / leading zero / non-empty): no further rejection reasons
 Not decided: the u64 overflow boundary; display/parse being inverse for all triples (core formatting trusted).
 """
 import json
@@ -424,6 +442,7 @@ def run(ctx, rep):
                     lifted.append(canon(strip(vals[0])) if top.path == tf.path else None)
             by_value = any(None not in lifted and set(lifted) == {canon(strip(sl._field(p, '0'))), canon(strip(sl._field(p, '1')))} for p in pairs)
         rep.check(by_unwrap_or or by_value, 'R6', 'BuildpackApi/split', where, "split_once('.') with default minor \"0\"", 'API version is not split_once(".") with default minor "0"')
+    deepen(ctx, rep, prog, sl, PC, T, info, regions, all_parses)
 
 
 def default_pairs(prog, sl, tf):
@@ -451,8 +470,374 @@ def default_pairs(prog, sl, tf):
             vs = [cd for cd in conds if cd.kind == 'variant' and cd.subject is not None and is_so(cd.subject)]
             if v[0] == 'unwrap' and is_so(v[1]) and any(cd.outcome == frozenset(['Some']) for cd in vs):
                 some = True
+            elif v[0] == 'tuple' and len(v[1]) == 2 and all(
+                    x[0] == 'field' and x[2] == str(i) and x[1][0] == 'unwrap' and is_so(x[1][1]) for i, x in enumerate(v[1])) \
+                    and any(cd.outcome == frozenset(['Some']) for cd in vs):
+                some = True     # `Some((a, b)) => (a, b)`: the payload taken apart and put together again
             elif is_default(v) and any(cd.outcome == frozenset(['None']) for cd in vs):
                 none = True
         if some and none:
             out.append(sl.local(tf, loc))
     return out
+
+
+# ---- deepening round ------------------------------------------------------------------------------------------------
+
+def _is_int_parse_call(c):
+    return c is not None and bool(c.full) and (c.full.endswith('parse::<u64>') or c.full == '<u64 as std::str::FromStr>::from_str')
+
+
+def deepen(ctx, rep, prog, sl, PC, T, info, regions, all_parses):
+    from .lib.value import canon
+    # ---- newtypes ---------------------------------------------------------------------------------------------
+    for t in T['types']:
+        if t not in info:
+            continue
+        f, rx, where = info[t]
+        short = t.split('::')[-1]
+        # Deserialize: the string that is validated is the deserialised string itself
+        ds = prog.find(r"^<%s as .*Deserialize<'de>>::deserialize$" % re.escape(t)) or \
+            prog.find(r"Deserialize<'de> for %s>::deserialize$" % re.escape(t))
+        if len(ds) == 1:
+            di = H.deser_input(prog, sl, ds[0])
+            if di is None:
+                rep.unproven('R3', t + '/deserialize-input', where, 'the success payload of deserialize is not one conversion of one value: %s'
+                             % vstr(sl.mk_unwrap(sl.local(ds[0], 0), 1))[:160])
+            else:
+                conv, inp, sc = di
+                is_parse = bool(conv.full and ('parse::<%s>' % t) in conv.full) or conv.res == f.path or conv.name == f.path
+                if not is_parse:
+                    rep.unproven('R3', t + '/deserialize-input', where, 'the deserialised value is produced by %s, not by parse::<%s>' % (conv.name, short))
+                else:
+                    rep.check(sc is not None, 'R3', t + '/deserialize-input', where, 'parse::<%s> is applied to the success payload of String::deserialize itself' % short,
+                              'Deserialize validates %s instead of the deserialised string itself: a string is accepted or rejected by deserialisation but not by parse'
+                              % vstr(inp)[:120])
+        # from_str: Err only behind a failed match
+        live = f.reachable(0)
+        defs = [d for d in f.whole_defs(0) if d[1] in live]
+        errs = [d for d in defs if d[0] == 'stmt' and d[3]['r'] == 'agg' and d[3].get('variant') == 'Err']
+        oks = [d for d in defs if d[0] == 'stmt' and d[3]['r'] == 'agg' and d[3].get('variant') == 'Ok']
+        if not errs or len(errs) + len(oks) != len(defs) or f.partial_defs(0):
+            rep.unproven('R3', t + '/reject-only-unmatched', where, 'the results of from_str are not all Ok(..) / Err(..) constructions in from_str itself')
+        else:
+            def unmatched(path, f=f):
+                for lit in path:
+                    ml = H.match_literal(sl, lit)
+                    if ml is not None and ml[1] is False:
+                        return True
+                    # `let Ok(regex) = Regex::new(<lit>) else { return Err }`: a pattern that does not compile matches nothing
+                    # likewise `Regex::new(<lit>).and_then(|r| r.is_match(v))` being Err: the success payload of the tested
+                    # Result is the compiled regex / the match result, and there is none
+                    if lit.kind == 'variant' and 'Ok' not in lit.outcome and lit.outcome:
+                        core = strip(sl.mk_unwrap(lit.value, 1))
+                        if core[0] == 'call' and core[1] in ('fancy_regex::Regex::new', 'fancy_regex::Regex::is_match'):
+                            return True
+                return False
+            good = all(H.holds_on_all(PC.paths(f, d[1]), unmatched) for d in errs)
+            if good:
+                rep.holds('R3', t + '/reject-only-unmatched', where, 'every Err of from_str lies behind a failed regex match')
+            else:
+                # whether the further condition is implied by the regex is not decided here
+                rep.unproven('R3', t + '/reject-only-unmatched', where,
+                             'from_str can return Err although the regex matches: unless the further condition is implied by the grammar, strings of the spec grammar are rejected')
+        # derived impls that build the type
+        derived = []
+        for g in prog.fns.values():
+            if not g.derived or g.crate != f.crate:
+                continue
+            builds = any(st[0] == '=' and st[2]['r'] == 'agg' and st[2].get('adt') == t for b in g.blocks for st in b['s'])
+            if builds and not g.path.endswith(' as std::clone::Clone>::clone') and g.path != '<%s as std::clone::Clone>::clone' % t:
+                derived.append(g.path)
+        rep.check(not derived, 'R3', t + '/derived-constructors', where, 'no derived impl other than Clone builds a %s' % short,
+                  'a derived impl builds %s without validation: %s' % (short, derived))
+        # literal macro (token facts): the literal that verify_regex! validates and the one new_unchecked stores are both
+        # the macro's own parameter, untouched
+        spec = T['types'][t]
+        ms = [m for m in prog.macros if m['name'] == spec['macro'] and m['crate'] == 'libcnb_data']
+        if len(ms) == 1:
+            body = ms[0]['body']
+            mw = '%s:%s' % (ms[0]['file'], ms[0]['line'])
+            pm = re.match(r'\s*\(\s*\$(\w+)\s*:\s*(?:expr|literal)\s*,?\s*\)\s*=>', body)
+            if pm is None:
+                rep.unproven('R4', 'macro-args/' + t, mw, 'the literal macro does not have the one-parameter form ($x:expr) => ..')
+            else:
+                par = re.escape('$' + pm.group(1))
+                checked = re.search(r'verify_regex\s*!\s*\(\s*r(#*)".*?"\1\s*,\s*' + par + r'\s*,', body, re.S) is not None
+                ctor_args = re.findall(r'new_unchecked\s*\(((?:[^()]|\([^()]*\))*)\)', body)
+                stored = bool(ctor_args) and all(re.fullmatch(r'\s*' + par + r'\s*', a) for a in ctor_args)
+                rep.check(checked and stored, 'R4', 'macro-args/' + t, mw, 'verify_regex! validates and new_unchecked stores the macro parameter itself',
+                          'the literal macro validates / stores something other than its parameter: verify_regex!(.., %s, ..) %s, new_unchecked(%s)'
+                          % ('$' + pm.group(1), 'found' if checked else 'NOT found', ' | '.join(a.strip() for a in ctor_args)[:80]))
+        # nobody outside the module can build or change the value: the string field is private
+        adt = prog.adt(t)
+        fl = [fd for vnt in (adt or {}).get('variants', []) for fd in vnt.get('fields', [])]
+        if len(fl) != 1:
+            rep.unproven('R3', t + '/field-private', where, 'the newtype does not have exactly one field')
+        else:
+            rep.check(fl[0].get('vis') != 'pub', 'R3', t + '/field-private', where, 'the string field is private to its module',
+                      'the string field of %s is public: any crate can build or change a value without validation' % short)
+        # new_unchecked stores its argument
+        nu = prog.fns.get('%s::new_unchecked' % t)
+        if nu is None:
+            rep.unproven('R5', t + '/new_unchecked-stored', where, 'new_unchecked not found')
+        else:
+            rep.analysed(nu)
+            v = strip(sl.local(nu, 0))
+            alts = v[1] if v[0] == 'phi' else [v]
+            ok = bool(alts)
+            got = []
+            for a in alts:
+                a = strip(a)
+                fv = strip(dict(a[3]).get('0', ('unknown',))) if a[0] == 'agg' and a[1] == t else ('unknown',)
+                got.append(vstr(fv)[:60])
+                ok = ok and H.is_param(fv, nu, 0)
+            rep.check(ok, 'R5', t + '/new_unchecked-stored', where, 'new_unchecked stores its argument unchanged',
+                      'new_unchecked (the literal macro) stores %s instead of the validated literal' % got)
+        # Display: plain `{}` of the stored string
+        dsp = prog.fns.get('<%s as std::fmt::Display>::fmt' % t)
+        if dsp is not None:
+            bad = H.fmt_conversions(prog, dsp)
+            rep.check(not bad, 'R5', t + '/display-plain', where, 'Display formats with plain `{}` placeholders',
+                      'Display does not render the stored string verbatim: %s' % bad[:3])
+    # ---- proc macro: which strings are compiled and matched ------------------------------------------------------
+    vr = prog.fns.get('libcnb_proc_macros::verify_regex')
+    if vr is not None:
+        where = '%s:%d' % (vr.file, vr.line)
+        # the input struct carries the macro's first two string literals as they were written
+        pf = [g for g in prog.find(r'^<libcnb_proc_macros::\w+ as syn::parse::Parse>::parse$')
+              if any(c.name == g.path or c.res == g.path for c in vr.calls) or 'VerifyRegexInput' in g.path]
+        if len(pf) > 1:
+            pf = [g for g in pf if 'VerifyRegexInput' in g.path]
+        if len(pf) != 1:
+            rep.unproven('R4', 'proc-macro/input-fields', where, 'Parse impl of the macro input not found')
+        else:
+            g = pf[0]
+            rep.analysed(g)
+            nf = strip(sl.mk_unwrap(sl.local(g, 0), 1))
+            fields = dict(nf[3]) if nf[0] == 'agg' else {}
+            lits = [c for c in g.calls if c.full and c.full.endswith('parse::<syn::LitStr>') and c.bb in g.reachable(0)]
+            lits.sort(key=lambda c: len(g.dominators().get(c.bb, ())))
+            chain = all(g.dominates(a.bb, b.bb) and a.bb != b.bb for a, b in zip(lits, lits[1:]))
+            ok = chain and len(lits) >= 2
+            got = {}
+            for i, name in enumerate(('regex', 'value')):
+                fv = strip(fields.get(name, ('unknown',)))
+                got[name] = vstr(fv)[:80]
+                c = H.call_of(prog, fv)
+                ok = ok and c is not None and i < len(lits) and c is lits[i] and len(fv[2]) == 1 and H.is_param(fv[2][0], g, 0)
+            rep.check(ok, 'R4', 'proc-macro/input-fields', '%s:%d' % (g.file, g.line), 'regex / value of the macro input are its first and second string literal, as written',
+                      'the macro input does not carry the literals as written: %s' % got)
+        sites = [(g, c) for g in H.region(prog, vr) for c in g.calls if c.is_('fancy_regex::Regex::is_match') and len(c.args) == 2]
+        if not sites:
+            rep.unproven('R4', 'proc-macro/operands', where, 'no is_match call found in verify_regex')
+
+        def lit_content(v, field):
+            """base value when v is `<base>.<field>.value()` of a syn::LitStr"""
+            v = strip(v)
+            if v[0] == 'call' and v[1].endswith('LitStr::value') and len(v[2]) == 1:
+                b = strip(v[2][0])
+                if b[0] == 'field' and b[2] == field:
+                    return b[1]
+            return None
+        for g, c in sites:
+            rep.analysed(g)
+            rows = H.lifted_to(prog, sl, g, [sl.operand(g, c.args[0]), sl.operand(g, c.args[1])], vr)
+            ok, why = bool(rows), ''
+            for row in rows:
+                if row is None:
+                    ok, why = False, 'the operands of is_match cannot be expressed in verify_regex'
+                    continue
+                rxv, txt = row
+                rn = strip(rxv)
+                b1 = lit_content(rn[2][0], 'regex') if rn[0] == 'call' and rn[1] == 'fancy_regex::Regex::new' and len(rn[2]) == 1 else None
+                b2 = lit_content(txt, 'value')
+                from_input = b1 is not None and b2 is not None and canon(strip(b1)) == canon(strip(b2)) and \
+                    any(x[0] == 'param' and x[1] == vr.path and x[2] == 0 for x in walk(b1))
+                if not from_input:
+                    ok, why = False, 'is_match(%s, %s)' % (vstr(rxv)[:90], vstr(txt)[:90])
+            rep.check(ok, 'R4', 'proc-macro/operands', c.where(), 'the content of the `value` literal is matched against the compiled content of the `regex` literal',
+                      'the literal macro does not match the literal itself against the regex itself: %s' % why)
+    # ---- versions ------------------------------------------------------------------------------------------------
+    for t, split_name in ((VER, 'core::str::<impl str>::split'), (API, 'core::str::<impl str>::split_once')):
+        tf = prog.fns.get('<%s as std::convert::TryFrom<std::string::String>>::try_from' % t)
+        short = t.split('::')[-1]
+        if tf is None or t not in regions:
+            continue
+        where = '%s:%d' % (tf.file, tf.line)
+        fns = regions[t]
+        # the string that is split is the argument itself
+        sps = [(g, c) for g in fns for c in g.calls if c.name == split_name and len(c.args) == 2]
+        ok = bool(sps)
+        got = []
+        for g, c in sps:
+            for row in H.lifted_to(prog, sl, g, [sl.operand(g, c.args[0])], tf):
+                got.append(vstr(row[0])[:80] if row else '?')
+                ok = ok and row is not None and H.is_param(row[0], tf, 0)
+        rep.check(ok, 'R6', short + '/split-input', where, 'the string that is split is the argument of try_from itself',
+                  'try_from splits %s instead of its argument: strings outside the grammar (e.g. surrounding whitespace) are accepted' % got)
+        # deserialize hands the deserialised string itself to try_from
+        ds = prog.find(r"Deserialize<'de> for %s>::deserialize$" % re.escape(t)) or \
+            prog.find(r"^<%s as .*Deserialize<'de>>::deserialize$" % re.escape(t))
+        tfn = '<%s as std::convert::TryFrom<std::string::String>>::try_from' % t
+        if len(ds) == 1:
+            di = H.deser_input(prog, sl, ds[0])
+            if di is None or not (di[0].full and di[0].full.startswith(tfn)):
+                rep.unproven('R6', short + '/deserialize-input', where, 'the success payload of deserialize is not try_from of one value: %s'
+                             % vstr(sl.mk_unwrap(sl.local(ds[0], 0), 1))[:160])
+            else:
+                rep.check(di[2] is not None, 'R6', short + '/deserialize-input', where, 'try_from is applied to the success payload of String::deserialize itself',
+                          'Deserialize validates %s instead of the deserialised string itself' % vstr(di[1])[:120])
+        # try_from is the only way from text to the type: any other function that takes a string and yields the type
+        # must hand that string to try_from (a second, differently written parser accepts a different language)
+        tfn = '<%s as std::convert::TryFrom<std::string::String>>::try_from' % t
+        others = []
+        for g in prog.fns.values():
+            if g.derived or g.path == tf.path or g.kind not in ('Fn', 'AssocFn') or t not in (g.ret or ''):
+                continue
+            if not any(('str' in a or 'String' in a) for a in (g.args or [])):
+                continue
+            nf = sl.mk_unwrap(sl.local(g, 0), 1)
+            core = nf[1] if nf[0] == 'unwrap' else nf
+            c = H.call_of(prog, core) if core[0] == 'call' else None
+            if not (c is not None and c.full and c.full.startswith(tfn)):
+                others.append(g.path)
+        rep.check(not others, 'R6', short + '/single-parser', where, 'no other function turns text into a %s' % short,
+                  'another conversion from text to %s does not go through try_from: %s' % (short, others))
+        # the input is examined only through its components: no branch of try_from (or of a closure / private helper,
+        # in the caller's terms) tests the whole string in another way (length caps, prefixes, ...)
+        elems = component_values(prog, sl, tf, fns, t)
+        halves = set().union(*[w for g0, w in elems if g0 is tf]) if elems else set()
+
+        def bare(v, tf=tf, split_name=split_name, halves=halves, depth=0):
+            if not isinstance(v, tuple) or not v or depth > 40:
+                return False
+            if not isinstance(v[0], str):    # a tuple of values (arguments, fields)
+                return any(bare(x, depth=depth + 1) for x in v if isinstance(x, tuple))
+            if v[0] == 'param':
+                return v[1] == tf.path and v[2] == 0
+            if v[0] == 'call' and v[1] == split_name and len(v[2]) == 2 and H.is_param(v[2][0], tf, 0):
+                return False
+            if v[0] == 'tuple' and len(v[1]) == 2 and H.is_param(v[1][0], tf, 0) and strip(v[1][1]) == ('const', '0'):
+                return False    # the default pair (value, "0") of an API version without '.'
+            if v[0] != 'param' and canon(strip(v)) in halves:
+                return False    # a half of split_once('.') with its default, however the pair was put together
+            if v[0] in ('const', 'fnitem', 'constitem', 'unknown', 'closure_env', 'upvar'):
+                return False
+            return any(bare(x, depth=depth + 1) for x in v[1:] if isinstance(x, tuple))
+        tests = []
+        for g in fns:
+            for rb in g.return_blocks():
+                for p in PC.paths(g, rb):
+                    if not H.consistent(p):
+                        continue
+                    for l in p:
+                        if bare(l.value):
+                            tests.append(repr(l)[:140])
+        if not tests:
+            rep.holds('R6', short + '/whole-input-tests', where, 'the input is examined only through its components')
+        else:
+            rep.unproven('R6', short + '/whole-input-tests', where,
+                         'try_from also decides on the whole string: %s — not shown to follow from the grammar, so strings of the grammar may be rejected (or others accepted)'
+                         % sorted(set(tests))[:3])
+        dsp = prog.fns.get('<%s as std::fmt::Display>::fmt' % t)
+        if dsp is not None:
+            bad = H.fmt_conversions(prog, dsp)
+            rep.check(not bad, 'R6', short + '/display-plain', where, 'Display formats the numbers with plain `{}` placeholders',
+                      'Display does not render the plain decimal numbers: %s' % bad[:3])
+        # what the integer parse is given / what the validator yields
+        parses = all_parses.get(t, [])
+        for i, (g, c) in enumerate(parses):
+            pv = sl.operand(g, c.args[0])
+            if elems is None:
+                rep.unproven('R6', '%s/component-input#%d' % (short, i), c.where(), 'the components handed to the validator were not recognised')
+            else:
+                ok, got = True, []
+                rows = []
+                for top, want in elems:
+                    for tt, vals in H.lift(prog, sl, g, [pv], top):
+                        if tt.path == top.path:
+                            rows.append((vals[0], want))
+                if not rows:
+                    ok = False
+                for val, want in rows:
+                    got.append(vstr(val)[:80])
+                    ok = ok and canon(strip(val)) in want
+                rep.check(ok, 'R6', '%s/component-input#%d' % (short, i), c.where(), 'the integer parse is given the split component itself',
+                          'the integer parse is given %s, not the component itself: components outside the grammar are accepted' % got)
+            # conditions about the parsed string on the way to the parse
+            key = canon(strip(pv))
+
+            def mentions(l, key=key):
+                return any(canon(strip(x)) == key for x in walk(l.value) if isinstance(x, tuple))
+
+            def spec_gate(l, pv=pv, t=t):
+                if l.kind != 'bool':
+                    return False
+                v = l.value
+                if H.is_digits_test(prog, sl, v, pv):
+                    return l.outcome is True
+                if H.is_nondigit_test(prog, sl, v, pv):
+                    return l.outcome is False
+                if H.is_starts_with(v, pv, '+') or H.is_starts_with(v, pv, '-'):
+                    return l.outcome is False
+                if v[0] == 'call' and v[1] == 'core::str::<impl str>::is_empty' and len(v[2]) == 1 and H.same(v[2][0], pv):
+                    return l.outcome is False
+                if t == VER and (H.is_starts_with(v, pv, '0') or H.is_eq_const(v, pv, '0')):
+                    return True
+                return False
+            extra = []
+            paths = [p for p in PC.paths(g, c.bb) if H.consistent(p)]
+            for p in paths:
+                for l in p:
+                    if mentions(l) and not spec_gate(l):
+                        extra.append(repr(l)[:140])
+            if paths and not extra:
+                rep.holds('R6', '%s/parse-gates#%d' % (short, i), c.where(), 'the parse is reached under the spec\'s conditions only (digits, sign, leading zero)')
+            else:
+                rep.unproven('R6', '%s/parse-gates#%d' % (short, i), c.where(),
+                             'a component is also tested in a way not shown to follow from the grammar (valid components may be rejected): %s' % sorted(set(extra))[:3])
+        # every optional integer of the validator is the parse's success payload
+        opt = [g for g in fns if g is not tf and g.ret == 'std::option::Option<u64>']
+        ok = bool(opt)
+        got = []
+        for g in opt:
+            ps = H.payloads(sl, sl.local(g, 0))
+            ok = ok and bool(ps)
+            for p in ps:
+                core = p[1] if p[0] == 'unwrap' else None
+                good = core is not None and core[0] == 'call' and _is_int_parse_call(H.call_of(prog, core))
+                if not good:
+                    got.append('%s yields %s' % (g.path.split('::')[-1], vstr(p)[:80]))
+                ok = ok and good
+        if not opt:
+            rep.unproven('R6', short + '/component-value', where, 'no function of the validator yields Option<u64>')
+        else:
+            rep.check(ok, 'R6', short + '/component-value', where, 'a validated component is the success payload of parse::<u64> (a parse error rejects)',
+                      'a component value does not come from a successful integer parse: %s' % got[:3])
+
+
+def component_values(prog, sl, tf, fns, t):
+    """[(function, {canonical values})]: for the functions that receive one component of the input, the values that
+    denote that component.  BuildpackVersion: the element parameter of the function handed to `map` over split('.');
+    BuildpackApi: in try_from itself, the two halves of split_once('.') with (value, "0") as the default."""
+    from .lib.value import canon
+    if t == VER:
+        out = []
+        for g in fns:
+            for c in g.calls:
+                if c.decl == 'std::iter::Iterator::map' and len(c.args) == 2:
+                    names, src = H.pipeline(sl.operand(g, c.args[0]))
+                    if names or not (src[0] == 'call' and src[1] == 'core::str::<impl str>::split'):
+                        return None
+                    for v in prog.fn_item_args(c):
+                        idx = 1 if v.kind == 'Closure' else 0
+                        out.append((v, {canon(('param', v.path, idx, v.local_name(idx + 1)))}))
+        return out or None
+    pairs = default_pairs(prog, sl, tf)
+    if not pairs:
+        return None
+    want = set()
+    for p in pairs:
+        want.add(canon(strip(sl._field(p, '0'))))
+        want.add(canon(strip(sl._field(p, '1'))))
+    return [(tf, want)]
